@@ -142,3 +142,39 @@ Theorem C13_version_specifier_pushes_what_it_spells :
                      | _, _ => false
                      end) spec_alts = true.
 Proof. vm_compute. split; reflexivity. Qed.
+
+(* ------------------------------------------------------------------ lexing in the executable instance (Nom/Exec.v) *)
+(* what the interpreter, as it is run against the real parser, can return as an identifier or accept as a keyword in a
+   given thread-local state -- for every text, position and state *)
+From SV Require HandLex GenLexers.
+
+(* the identifier lexers of the executable instance: those of the regenerated table that carry the reserved-word veto *)
+Theorem C13_exec_identifier_is_never_reserved : forall inp sfuel i x p n l,
+  nth_error GenPrims.prim_table (N.to_nat i) = Some (PLex l) -> HandLex.lx_veto l = true ->
+  prim_exec GenPrims.span_defs GenPrims.prim_table inp sfuel i x p = Some n ->
+  Keywords.mem (string_of_bytes (firstn n (skipn p inp))) (table_of (in_force (t_ver x))) = false.
+Proof.
+  intros inp sfuel i x p n l Hl Hv H. unfold prim_exec in H. rewrite Hl in H. unfold HandLex.lex in H.
+  destruct (HandLex.head_len (HandLex.lx_head l) (skipn p inp)) as [h|]; [|discriminate].
+  destruct (HandLex.lx_tail_required l && _)%bool; [discriminate|].
+  rewrite Hv in H. cbn [andb] in H.
+  destruct (veto_of x (firstn (h + HandLex.run_len (HandLex.lx_tail l) (skipn h (skipn p inp))) (skipn p inp))) eqn:E; [discriminate|].
+  injection H as <-. exact E.
+Qed.
+
+(* keyword(t) succeeds only for a word that is_reserved_in_force lets through in the state it is tried in *)
+Theorem C13_exec_keyword_only_when_in_force : forall inp sfuel i x p n t,
+  nth_error GenPrims.prim_table (N.to_nat i) = Some (PKeyword t) ->
+  prim_exec GenPrims.span_defs GenPrims.prim_table inp sfuel i x p = Some n ->
+  keyword_allowed_at (in_dir x) keywords_directive (guard_table_of (in_force (t_ver x))) keywords_1800_2017 (string_of_bytes t) = true.
+Proof.
+  intros inp sfuel i x p n t Hl H. unfold prim_exec in H. rewrite Hl in H.
+  unfold reserved_in_force in H. destruct (keyword_allowed_at _ _ _ _ _); [reflexivity|discriminate].
+Qed.
+
+(* the two identifier lexers of the grammar carry that veto in the regenerated table (Gen/GenLexers.v reads it off
+   their bodies: `if is_keyword(&a) { Err(..) }`), and they are primitives of the executable grammar *)
+Theorem C13_exec_identifier_lexers_have_the_veto :
+  HandLex.lx_veto GenLexers.lx_simple_identifier_impl = true /\ HandLex.lx_veto GenLexers.lx_c_identifier_impl = true /\
+  List.length (filter (fun d => match d with PLex l => HandLex.lx_veto l | _ => false end) GenPrims.prim_table) = 2%nat.
+Proof. vm_compute. repeat split; reflexivity. Qed.
